@@ -121,7 +121,7 @@ static void do_op(Cmd *c) {
         o("st=-"); if (is_op(c, "destroy_cb")) { o(" "); o_cb(); }
     } else if (is_op(c, "zit_new")) {
         int p = (int)kv_u64(c, "p", 1);
-        if (p < 0 || p >= NSLOT || p == k || !A[k] || !A[p]) o("st=- noobj");
+        if (p < 0 || p >= NSLOT || p == k || !A[k] || !A[p]) { z1 = z2 = -1; o("st=- noobj"); }
         else { cc_array_zip_iter_init(&zit, A[k], A[p]); z1 = k; z2 = p; o("st=-"); }
     } else if (!strncmp(c->op, "zit_", 4)) {
         if (z1 < 0) o("st=- noiter");
@@ -143,7 +143,7 @@ static void do_op(Cmd *c) {
             o("st=- out=%zu", cc_array_zip_iter_index(&zit));
         } else o("st=- badop");
     } else if (is_op(c, "it_new")) {
-        if (!a) o("st=- noobj"); else { cc_array_iter_init(&it, a); it_slot = k; o("st=-"); }
+        if (!a) { it_slot = -1; o("st=- noobj"); } else { cc_array_iter_init(&it, a); it_slot = k; o("st=-"); }
     } else if (!strncmp(c->op, "it_", 3)) {
         if (it_slot < 0) o("st=- noiter");
         else if (is_op(c, "it_next")) { enum cc_stat st = cc_array_iter_next(&it, &out); o_out(st, out); }
